@@ -126,7 +126,10 @@ func isNilTuple(t types.Type) bool {
 	return ok && tt == nil
 }
 
-func isLocalPath(p string) bool { return p == "" || p == "main" || p == "foo" || p == "p" }
+// LocalPaths are the package paths that denote "the package under construction" on either side.
+var LocalPaths = map[string]bool{"": true, "main": true, "foo": true, "p": true, "test": true, "bar": true}
+
+func isLocalPath(p string) bool { return LocalPaths[p] }
 
 func methods(t *types.Interface) []*types.Func {
 	ms := make([]*types.Func, t.NumMethods())
